@@ -246,6 +246,37 @@ def check(run):
         if not (ok_main and ok_link):
             wits.append({"kind": "freshly built, unaltered artifacts are refused: " + err, "package": ifacegen.rich("7"), "main": ifacegen.RICH_MAIN})
             break
+    # artifacts as a compiler with OTHER version constants would have written them (versions changed consistently in the
+    # unit and its embedded interface, hash recomputed over them): check/build/link of this compiler must refuse them
+    ver_stats = {"cases": 0, "refused": 0}
+    try:
+        vcases = []
+        base_ops, _ = to_ops(0, [("build", p) for p in ["Base", "Lib", "Util", "Main"]])
+        for target in ("out/Main.core", "out/Base.core", "out/Lib.core", "out/Base.interface"):
+            for fv, abi in ((2, 1), (1, 2), (2, 2), (0, 1)):
+                ops = list(base_ops) + [{"op": "reversion", "file": target, "format_version": fv, "compiler_abi": abi}]
+                if target.endswith(".interface"):
+                    ops += [o for o in to_ops(0, [("build", "Lib")])[0] if o["op"] in ("check", "build")]
+                else:
+                    ops.append({"op": "link", "pkgs": LINKSET[0]})
+                vcases.append((target, fv, abi, {"dir": os.path.join(vlib.BUILD, "tmp", "c15", "ver%d" % len(vcases)), "ops": ops}))
+        for (target, fv, abi, case), r in zip(vcases, vlib.run_harness("sep", [c[3] for c in vcases])):
+            ver_stats["cases"] += 1
+            rs = r["results"]
+            rev = rs[len(base_ops)]
+            if not rev.get("ok"):
+                broken.append(Broken("harness", "C15 reversion of %s failed: %s" % (target, rev.get("err"))))
+                continue
+            last = rs[-1]
+            if "panic" in last:
+                wits.append({"kind": "panic on %s written with format_version %d / compiler_abi %d" % (target, fv, abi), "impl": last})
+            elif last.get("ok"):
+                wits.append({"kind": "%s written by a compiler with format_version %d / compiler_abi %d (this compiler: 1 / 1) is accepted by %s" % (target, fv, abi, "build" if target.endswith(".interface") else "link"), "history": "build Base, Lib, Util, Main; rewrite %s with the other version constants and the hash recomputed; %s" % (target, "build Lib" if target.endswith(".interface") else "link")})
+            else:
+                ver_stats["refused"] += 1
+    except Broken as b:
+        broken.append(b)
+    edit_stats["artifacts_of_another_compiler_version"] = ver_stats
     # known finding: the core body (core_ir) is not covered by any checksum
     for k in run.known:
         if k["replay"]["kind"] == "core-body-unchecked":
